@@ -32,3 +32,4 @@ def rules(ctx):
     S.survey2_rules(ctx)
     S.oldest_search_rules(ctx)
     S.survey3_rules(ctx)
+    S.round5_rules(ctx)
